@@ -449,6 +449,8 @@ impl Case {
     }
 }
 
+/// which of the pre-repair deviations (repaired in /repo 628570a) an order/duplication difference
+/// would look like — used only to word the violation; none of them is tolerated any more
 fn class_of(d: (bool, bool, bool)) -> &'static str {
     match d {
         (true, _, _) => "tbs-duplicate-rr-kept",
@@ -671,17 +673,18 @@ fn exec_inner(t: &[&str]) -> Option<Out> {
                     (Err(_), None) => {}
                     (Ok(g), Some(e)) => {
                         let cl = if is_reordering(&c, g) { class_of(dev) } else { "" };
-                        stats.push(format!("deviation.{}", if cl.is_empty() { "UNEXPLAINED" } else { cl }));
+                        stats.push(format!("deviation.{}", if cl.is_empty() { "other" } else { cl }));
                         fails.push((
                             format!(
-                                "TBS::from_input differs from the RFC 4035 §5.3.2 signed data ({} vs {} bytes; dup={} ttl-differs={} rdata-key-noncanonical={})",
+                                "TBS::from_input differs from the RFC 4035 §5.3.2 signed data ({} vs {} bytes; looks like regression {}; dup={} ttl-differs={} rdata-key-noncanonical={})",
                                 g.len(),
                                 e.len(),
+                                if cl.is_empty() { "none of the repaired ones" } else { cl },
                                 dev.0,
                                 dev.1,
                                 dev.2
                             ),
-                            cl.into(),
+                            String::new(),
                         ));
                     }
                     (Ok(_), None) => fails.push(("TBS::from_input accepted an RRSIG whose Labels field exceeds the owner's label count / RDATA without wire form".into(), String::new())),
@@ -715,8 +718,8 @@ fn exec_inner(t: &[&str]) -> Option<Out> {
                                 _ => "",
                             };
                             fails.push((
-                                format!("RRset signed by a conforming signer ({:?}) does not verify with DNSKEY::verify_rrsig (dup={} ttl-differs={} rdata-key-noncanonical={})", k.alg, dev.0, dev.1, dev.2),
-                                cl.into(),
+                                format!("RRset signed by a conforming signer ({:?}) does not verify with DNSKEY::verify_rrsig (looks like regression {}; dup={} ttl-differs={} rdata-key-noncanonical={})", k.alg, if cl.is_empty() { "none of the repaired ones" } else { cl }, dev.0, dev.1, dev.2),
+                                String::new(),
                             ));
                         } else {
                             nontrivial = true;
@@ -1033,7 +1036,7 @@ pub fn nm(s: &str) -> N {
     N { labels: s.trim_end_matches('.').split('.').filter(|l| !l.is_empty()).map(|l| l.as_bytes().to_vec()).collect(), fqdn: true }
 }
 
-/// hand-built cases: the three confirmed deviations, SOA compression, > 64 candidate labels, 64 KiB
+/// hand-built cases: the three repaired deviations (regression), SOA compression, > 64 candidate labels, 64 KiB
 fn hand_built() -> Vec<Case> {
     let base = |name: &str, tc: u16, recs: Vec<(u32, RD)>| {
         let n = nm(name);
